@@ -28,16 +28,18 @@ FULL = r'''
 def plan(tier, seed):
     p = Plan()
     thorough = tier == "thorough"
-    g = 8 if thorough else 4
+    g = 2
     pts = CV.grid(g)
     chunk = 64
+    gs = 10 if thorough else 6
+    spts = CV.grid(gs)
     txt = CV.PRELUDE + FULL
     hs = [dict(name="k_cv_rt_linear_hlg", family="full", timeout=1200, mem_gb=10, replay=CV.replay_curve, rk="all", curve="HLG",
                obligation="Linear: bit-exact identity for all inputs; HLG round trip on [0,0.5]; sRGB round trip on its linear segment", sym="x: all f32 (Linear), every f32 in [0,0.5] (HLG), [0,0.003) (sRGB)",
                covers=["HLG range explored"])]
     for name in RT:
-        # PQ: 8 fast-powf evaluations per round trip, ~30 s of SAT time per input: 7 inputs quick, the 50-input grid thorough
-        use = pts if name != "PQ" else (CV.grid(2) if thorough else [0.0, 0.0625, 0.125, 0.25, 0.5, 0.75, 1.0])
+        # public-API tie on a small grid (PQ: 8 fast-powf evaluations per round trip, ~30 s of SAT time per input)
+        use = pts if name != "PQ" else [0.0, 0.0625, 0.25, 0.5, 1.0]
         for c in range(0, len(use), chunk):
             sub = use[c:c + chunk]
             n, code = CV.rt_harness(name, sub, c // chunk)
@@ -45,11 +47,24 @@ def plan(tier, seed):
             hs.append(dict(name=n, family="roundtrip", timeout=3000 if name == "PQ" else 1500, mem_gb=10, replay=CV.replay_curve, rk="grid", mode="rt", curve=name, xs=[CV.bits_of(x) for x in sub],
                            obligation="%s: to_gamma(to_linear(x)) within %.1e of x (real fast powf both ways)" % (name, 5.7e-4 if name == "PQ" else 2.5e-4),
                            sym="x on the reduced-precision grid: %d inputs with <= %d mantissa bits (symbolic index)" % (len(sub), g), covers=["last grid point explored"]))
+    stxt = CV.SCALAR_PRELUDE
+    for name in RT:
+        use = spts if name != "PQ" else CV.grid(3 if thorough else 1)
+        ch = 2048 if name != "PQ" else 16
+        for c in range(0, len(use), ch):
+            sub = use[c:c + ch]
+            n, code = CV.rt_scalar(name, sub, c // ch)
+            stxt += code
+            hs.append(dict(name=n, family="roundtrip-scalar", timeout=3000, mem_gb=10, replay=CV.replay_curve, rk="grid", mode="rt", curve=name, xs=[CV.bits_of(x) for x in sub],
+                           obligation="%s: to_gamma(to_linear(x)) within %.1e of x (scalar kernels, real fast powf both ways)" % (name, 5.7e-4 if name == "PQ" else 2.5e-4),
+                           sym="x on the reduced-precision grid: %d inputs (symbolic index)" % len(sub), covers=["last grid point explored"]))
+    stxt += "}\n"
+    p.modules.append(("src/yuv_rgb/transfer.rs", stxt))
     txt += CV.EPILOGUE
     p.modules.append(("src/lib.rs", txt))
     p.harnesses = hs
     p.functions = ["all scalar transfer curves in both directions (src/yuv_rgb/transfer.rs)", "yuvxyb_math::powf / exp2 / log2 (real)"]
-    p.bounds = ["oracle-free round trip on the reduced-precision grid (<= %d mantissa bits, %d inputs per curve) for the BT.1886 family, BT.470M, BT.470BG, sRGB, xvYCC, PQ; full domain for Linear, HLG on [0,0.5], sRGB linear segment" % (g, len(pts))]
+    p.bounds = ["oracle-free round trip of the scalar kernels on the reduced-precision grid (<= %d mantissa bits, %d inputs per curve; PQ %d inputs) for the BT.1886 family, BT.470M, BT.470BG, sRGB, xvYCC, PQ, plus a small public-API tie; full domain for Linear, HLG on [0,0.5], sRGB linear segment" % (gs, len(spts), len(CV.grid(3 if thorough else 1)))]
     p.outside = ["Log100, Log316 and HLG above 0.5: their to_gamma uses log10/ln (over-approximated by Kani: a spurious counterexample would be guaranteed)", "inputs off the grid",
                  "aliases of BT.1886 (bit-identical to it by C03's alias lemma)"]
     p.assumptions = ["non-FMA build"]
